@@ -275,6 +275,11 @@ class RandomQueries:
             n = r.randint(1, 3)
             with_p = r.random() < 0.6
             q['targets'] = ([{'e': self.col('p'), 'as': ''}] if with_p else []) + [{'e': self.scalar(), 'as': 'c%d' % i} for i in range(n)]
+            if r.random() < 0.12:          # an alias that hides a table column (and is not that column): ORDER BY the name = the output
+                t = r.choice([t for t in q['targets'] if t['as']])
+                hid = r.choice(['k', 'v', 'w', 's'])
+                if not (t['e'].get('k') == 'col' and t['e']['n'] == hid) and all(x['as'] != hid and x['e'] != self.col(hid) for x in q['targets']):
+                    t['as'] = hid
             names = [t['as'] or t['e']['n'] for t in q['targets']]
             if r.random() < 0.85:
                 q['order'] = self.order(q['targets'], names, False)
@@ -427,6 +432,8 @@ class RandomQueries:
             q['where'] = r.choice([{'k': 'un', 'op': 'isnotnull', 'a': col(n)}, {'k': 'un', 'op': 'isnull', 'a': col(n)}, col(n)])
         q['distinct'] = r.random() < 0.2
         q['limit'] = r.choice([-1, -1, -1, 0, 1, 3])
+        if q.get('star') and r.random() < 0.3:          # exactly  SELECT DISTINCT * FROM (q)  - nothing else on the outer statement
+            q['distinct'], q['limit'], q['order'], q['where'] = True, -1, [], {'k': 'none'}
         return q
 
 
